@@ -5,7 +5,7 @@
 **
 ** Every grid is ordered simplest-first.  `vfg_large` selects the thorough-tier grids.
 **   int     iv[ni]     float  fv[fn]     string  sv[sn]     type  tobj[tn]/tname[tn]
-**   raw     rv[rn]
+**   raw*    rawdoms[] / RW (the selected one): RW->v[RW->n], RW->size, RW->type
 ** <dom>_ref(i,j) is the C reference sign, <dom>_feat(i,j) the input feature for labels,
 ** <dom>_desc() a printable form.
 */
@@ -24,6 +24,15 @@
 
 struct Raw8 { unsigned char b[8]; };
 var Raw8 = Cello(Raw8);
+struct Raw1  { unsigned char b[1]; };   var Raw1  = Cello(Raw1);
+struct Raw3  { unsigned char b[3]; };   var Raw3  = Cello(Raw3);
+struct Raw4  { unsigned char b[4]; };   var Raw4  = Cello(Raw4);
+struct Raw7  { unsigned char b[7]; };   var Raw7  = Cello(Raw7);
+struct Raw9  { unsigned char b[9]; };   var Raw9  = Cello(Raw9);
+struct Raw12 { int32_t x, y, z; };      var Raw12 = Cello(Raw12);
+struct Raw16 { unsigned char b[16]; };  var Raw16 = Cello(Raw16);
+struct Raw20 { unsigned char b[20]; };  var Raw20 = Cello(Raw20);
+struct Raw21 { unsigned char b[21]; };  var Raw21 = Cello(Raw21);
 
 static int vfg_large;
 
@@ -180,37 +189,85 @@ static const char* type_feat(int i, int j) {
 }
 static void type_desc(int i, char* buf, size_t cap) { snprintf(buf, cap, "%s", tname[i]); }
 
-/* -- raw 8-byte struct -- */
-static unsigned char rv[MAXN][8]; static int rn;
-static void raw_grid(void) {
+/* -- plain structs of raw bytes (no Cmp / Hash / Assign / Swap instance) in several sizes --
+**
+** "raw" is Raw8; raw1, raw3, raw4, raw7, raw9, raw12, raw16, raw20, raw21 have sizes that are
+** not multiples of 8 (tails of 1..7 bytes after the last whole word, a size below one word,
+** exactly two words) so that word-wise implementations of the default cmp / hash / assign /
+** swap must get their remainder handling right.  None has padding (unsigned char arrays;
+** Raw12 is three int32).  Grid of a size: the bytes at 3 (large: up to 4) positions - always
+** the first and the LAST byte, the first byte after the last whole 8-byte word (or the middle)
+** - each from {00, 01, 80, FF}, all other bytes 0x55.
+*/
+#define RAWMAX 24
+struct rawdom { const char* name; size_t size; var type; int n; unsigned char v[MAXN][RAWMAX]; };
+static struct rawdom rawdoms[10]; static int nrawdoms;
+static struct rawdom* RW;               /* the raw domain currently selected */
+
+static struct rawdom* raw_find(const char* name) {
+  for (int q = 0; q < nrawdoms; q++) if (!strcmp(rawdoms[q].name, name)) return &rawdoms[q];
+  return NULL;
+}
+
+static void raw_grid_one(const char* name, size_t size, var type) {
   static const unsigned char vals[4] = { 0x00, 0x01, 0x80, 0xFF };
-  static const int pos_small[] = { 0, 3, 7 }, pos_large[] = { 0, 1, 3, 7 };
-  const int* pos = vfg_large ? pos_large : pos_small; int np = vfg_large ? 4 : 3;
+  struct rawdom* r = &rawdoms[nrawdoms++];
+  r->name = name; r->size = size; r->type = type; r->n = 0;
+  size_t cand[5], pos[4]; int np = 0, maxp = vfg_large ? 4 : 3;
+  size_t mid = size & ~(size_t)7;
+  if (mid == 0 || mid >= size - 1) mid = size / 2;
+  cand[0] = 0; cand[1] = size - 1; cand[2] = mid; cand[3] = size / 2; cand[4] = size >= 2 ? size - 2 : 0;
+  if (size == 8) { cand[2] = 3; cand[3] = 1; }          /* Raw8 keeps its historical positions {0,3,7} / {0,1,3,7} */
+  for (int c = 0; c < 5 && np < maxp; c++) {
+    int dup = 0; for (int q = 0; q < np; q++) if (pos[q] == cand[c]) dup = 1;
+    if (!dup) pos[np++] = cand[c];
+  }
+  for (int x = 1; x < np; x++) { size_t v = pos[x]; int y = x; while (y > 0 && pos[y-1] > v) { pos[y] = pos[y-1]; y--; } pos[y] = v; }
   int cnt = 1; for (int q = 0; q < np; q++) cnt *= 4;
   for (int c = 0; c < cnt; c++) {
-    memset(rv[rn], 0x55, 8);
+    memset(r->v[r->n], 0x55, RAWMAX);
     int x = c;
-    for (int p = np - 1; p >= 0; p--) { rv[rn][pos[p]] = vals[x % 4]; x /= 4; }
-    rn++;
+    for (int q = np - 1; q >= 0; q--) { r->v[r->n][pos[q]] = vals[x % 4]; x /= 4; }
+    r->n++;
   }
 }
+static void raw_grid(void) {
+  raw_grid_one("raw", 8, Raw8);
+  raw_grid_one("raw1", 1, Raw1);   raw_grid_one("raw3", 3, Raw3);   raw_grid_one("raw4", 4, Raw4);
+  raw_grid_one("raw7", 7, Raw7);   raw_grid_one("raw9", 9, Raw9);   raw_grid_one("raw12", 12, Raw12);
+  raw_grid_one("raw16", 16, Raw16); raw_grid_one("raw20", 20, Raw20); raw_grid_one("raw21", 21, Raw21);
+  for (int q = 0; q < nrawdoms; q++) if (size(rawdoms[q].type) != rawdoms[q].size) {
+    fprintf(stderr, "vf_cmp.h: struct %s has padding (size %zu, expected %zu)\n", rawdoms[q].name, size(rawdoms[q].type), rawdoms[q].size); _exit(2);
+  }
+  RW = &rawdoms[0];
+}
 static int raw_ref(int i, int j) {
-  for (int k = 0; k < 8; k++) if (rv[i][k] != rv[j][k]) return rv[i][k] < rv[j][k] ? -1 : 1;
+  for (size_t k = 0; k < RW->size; k++) if (RW->v[i][k] != RW->v[j][k]) return RW->v[i][k] < RW->v[j][k] ? -1 : 1;
   return 0;
 }
 static const char* raw_feat(int i, int j) {
-  for (int k = 0; k < 8; k++) if (rv[i][k] != rv[j][k])
-    return (rv[i][k] | rv[j][k]) >= 0x80 ? (k == 0 ? "first-byte-high" : "later-byte-high") : (k == 0 ? "first-byte-low" : "later-byte-low");
+  for (size_t k = 0; k < RW->size; k++) if (RW->v[i][k] != RW->v[j][k]) {
+    int high = (RW->v[i][k] | RW->v[j][k]) >= 0x80;
+    if (k == RW->size - 1 && k > 0) return high ? "last-byte-high" : "last-byte-low";   /* differ ONLY in the last byte */
+    if (k == 0) return high ? "first-byte-high" : "first-byte-low";
+    return high ? "later-byte-high" : "later-byte-low";
+  }
   return "equal";
 }
 static void raw_desc(int i, char* buf, size_t cap) {
   size_t o = 0;
-  for (int k = 0; k < 8; k++) o += snprintf(buf + o, cap - o, "%02X", rv[i][k]);
+  for (size_t k = 0; k < RW->size && o + 3 < cap; k++) o += snprintf(buf + o, cap - o, "%02X", RW->v[i][k]);
+}
+/* a stack-class object of the selected raw type in caller storage (what $(T, ...) builds) */
+#define RAW_STACKBUF(name) char name[sizeof(struct Header) + RAWMAX + 8] __attribute__((aligned(16))) = {0}
+static var raw_stack(char* buf, int i) {
+  var x = header_init(buf, RW->type, AllocStack);
+  memcpy(x, RW->v[i], RW->size);
+  return x;
 }
 static int raw_stackcmp(int i, int j) {
-  struct Raw8* a = alloc_stack(Raw8); struct Raw8* b = alloc_stack(Raw8);
-  memcpy(a->b, rv[i], 8); memcpy(b->b, rv[j], 8);
-  return cmp(a, b);
+  RAW_STACKBUF(ba); RAW_STACKBUF(bb);
+  return cmp(raw_stack(ba, i), raw_stack(bb, j));
 }
 
 static void vfg_build(int large_) {
